@@ -5230,7 +5230,8 @@ func (s *ShowSeriesCardinalityStatement) RenderBytes(buf *bytes.Buffer, posmap B
 
 // RequiredPrivileges returns the privilege required to execute a ShowSeriesCardinalityStatement.
 func (s *ShowSeriesCardinalityStatement) RequiredPrivileges() (ExecutionPrivileges, error) {
-	if !s.Exact {
+	// without a FROM clause the exact form covers every measurement of the database
+	if !s.Exact || len(s.Sources) == 0 {
 		return ExecutionPrivileges{{Admin: false, Name: s.Database, Rwuser: true, Privilege: ReadPrivilege}}, nil
 	}
 	return s.Sources.RequiredPrivileges()
@@ -5574,7 +5575,8 @@ func (s *ShowMeasurementCardinalityStatement) RenderBytes(buf *bytes.Buffer, pos
 
 // RequiredPrivileges returns the privilege required to execute a ShowMeasurementCardinalityStatement.
 func (s *ShowMeasurementCardinalityStatement) RequiredPrivileges() (ExecutionPrivileges, error) {
-	if !s.Exact {
+	// without a FROM clause the exact form covers every measurement of the database
+	if !s.Exact || len(s.Sources) == 0 {
 		return ExecutionPrivileges{{Admin: false, Name: s.Database, Rwuser: true, Privilege: ReadPrivilege}}, nil
 	}
 	return s.Sources.RequiredPrivileges()
@@ -6374,6 +6376,10 @@ func (s *ShowTagKeyCardinalityStatement) RenderBytes(buf *bytes.Buffer, posmap B
 
 // RequiredPrivileges returns the privilege required to execute a ShowTagKeyCardinalityStatement.
 func (s *ShowTagKeyCardinalityStatement) RequiredPrivileges() (ExecutionPrivileges, error) {
+	// without a FROM clause the statement covers every measurement of the database
+	if len(s.Sources) == 0 {
+		return ExecutionPrivileges{{Admin: false, Name: s.Database, Rwuser: true, Privilege: ReadPrivilege}}, nil
+	}
 	return s.Sources.RequiredPrivileges()
 }
 
@@ -6598,6 +6604,10 @@ func (s *ShowTagValuesCardinalityStatement) RenderBytes(buf *bytes.Buffer, posma
 
 // RequiredPrivileges returns the privilege required to execute a ShowTagValuesCardinalityStatement.
 func (s *ShowTagValuesCardinalityStatement) RequiredPrivileges() (ExecutionPrivileges, error) {
+	// without a FROM clause the statement covers every measurement of the database
+	if len(s.Sources) == 0 {
+		return ExecutionPrivileges{{Admin: false, Name: s.Database, Rwuser: true, Privilege: ReadPrivilege}}, nil
+	}
 	privs, err := s.Sources.RequiredPrivileges()
 	if err != nil {
 		return nil, err
@@ -6719,6 +6729,10 @@ func (s *ShowFieldKeyCardinalityStatement) RenderBytes(buf *bytes.Buffer, posmap
 
 // RequiredPrivileges returns the privilege required to execute a ShowFieldKeyCardinalityStatement.
 func (s *ShowFieldKeyCardinalityStatement) RequiredPrivileges() (ExecutionPrivileges, error) {
+	// without a FROM clause the statement covers every measurement of the database
+	if len(s.Sources) == 0 {
+		return ExecutionPrivileges{{Admin: false, Name: s.Database, Rwuser: true, Privilege: ReadPrivilege}}, nil
+	}
 	return s.Sources.RequiredPrivileges()
 }
 
